@@ -1,5 +1,443 @@
 package main
 
-func (g *gen) genC07impl() { g.genC06() }
+import (
+	"bytes"
+	"fmt"
+	"regexp"
+	"strings"
 
-func checkC07(cr *checkResult) {}
+	"github.com/google/safehtml/simrt"
+)
+
+// C07: definitions freeze at first execution; clones are fully isolated.
+// DESIGN §5 C07.  The history is Defs followed by the single task's
+// operations; worlds that leave out part of the history are executed with the
+// same map-order salt and the same fault plan (faults are keyed by op id), so
+// nothing but the removed operations differs.
+
+var probeRe = regexp.MustCompile(`\{\{probe "[^"]*"\}\}`)
+var valRe = regexp.MustCompile(`\{\{val (\.[A-Z]?)\}\}`)
+
+func funcFree(s string) string {
+	return valRe.ReplaceAllString(probeRe.ReplaceAllString(s, ""), "{{$1}}")
+}
+
+func (g *gen) genC07impl() {
+	c := g.c
+	g.genSet(1+g.r.Intn(3), 2+g.r.Intn(3), g.r.Intn(2), false)
+	// Simulated disk: every file defines some of the templates again or new
+	// ones, without sim functions so that the function forms can load them.
+	c.Disk = map[string]string{}
+	files := []string{"a.tmpl", "b.tmpl", "c.tmpl", "sub/d.tmpl"}
+	for i, f := range files {
+		var b strings.Builder
+		n := 1 + g.r.Intn(2)
+		for j := 0; j < n; j++ {
+			name := g.pick(append(append([]string(nil), g.order...), fmt.Sprintf("F%d", i)))
+			body := g.bodies[name]
+			if body == "" || g.chance(0.5) {
+				body = g.c07body()
+			}
+			b.WriteString(defineText(name, funcFree(body)))
+		}
+		if g.chance(0.4) {
+			b.WriteString("<p>file " + f + " {{.F}}</p>")
+		}
+		c.Disk[f] = b.String()
+	}
+	g.emitDefs(false)
+	names := g.allNames()
+	sets := []int{0}
+	frozen := map[int]bool{}
+	nops := 6 + g.r.Intn(10)
+	var ops []Op
+	for i := 0; i < nops; i++ {
+		set := sets[g.r.Intn(len(sets))]
+		n := g.r.Intn(100)
+		late := i > nops/3
+		switch {
+		case n < 14 && len(sets) < 3:
+			ns := len(sets)
+			ops = append(ops, Op{ID: g.id(), Kind: opClone, Set: set, Recv: g.maybeName(names), New: ns})
+			sets = append(sets, ns)
+			frozen[ns] = false
+		case n < 22 && late:
+			// clone attempt whatever the state (must fail after execution)
+			ops = append(ops, Op{ID: g.id(), Kind: opClone, Set: set, Recv: g.maybeName(names), New: 7 + i})
+		case n < 50:
+			op := g.c07parse(set, names)
+			ops = append(ops, op)
+		case n < 56 && !frozen[set]:
+			ops = append(ops, Op{ID: g.id(), Kind: opNew, Set: set, Recv: g.maybeName(names), Name: fmt.Sprintf("N%d", i)})
+		case n < 64:
+			ops = append(ops, g.readOp(set, names))
+		default:
+			if !late && g.chance(0.5) {
+				ops = append(ops, g.c07parse(set, names))
+				continue
+			}
+			ops = append(ops, g.execOp(set, names))
+			frozen[set] = true
+		}
+	}
+	c.Tasks = [][]Op{ops}
+	c.Profile = fmt.Sprintf("C07 sets=%d", len(sets))
+	if g.chance(0.4) {
+		g.fsFaults(g.opPtrs(), 0.35)
+		g.execFaults(g.opPtrs(), 0.2)
+		c.Profile += " faults"
+	}
+}
+
+func (g *gen) c07body() string {
+	switch g.r.Intn(4) {
+	case 0:
+		return g.pick(helperValueBodies)
+	case 1:
+		return strings.Replace(g.pick(helperHTMLBodies), "·", "", 1)
+	case 2:
+		return g.pick([]string{`<a href="`, `<div title="`, `<b>`})
+	default:
+		return g.topBody()
+	}
+}
+
+// c07parse: a definition call through one of the Parse entry points.
+func (g *gen) c07parse(set int, names []string) Op {
+	id := g.id()
+	recv := g.maybeName(names)
+	switch n := g.r.Intn(100); {
+	case n < 40:
+		// redefine an existing helper / template or define a new one
+		name := g.pick(append(append([]string(nil), names...), "N9"))
+		return Op{ID: id, Kind: opParse, Set: set, Recv: recv, Text: defineText(name, g.c07body())}
+	case n < 52:
+		return Op{ID: id, Kind: opParseConst, Set: set, Recv: recv, Const: g.r.Intn(len(constTexts))}
+	case n < 68:
+		nf := 1 + g.r.Intn(2)
+		var fs []string
+		for i := 0; i < nf; i++ {
+			fs = append(fs, g.pick(constFiles))
+		}
+		return Op{ID: id, Kind: opParseFiles, Set: set, Recv: recv, Files: fs, Via: g.pick([]string{"const", "trusted"})}
+	case n < 80:
+		return Op{ID: id, Kind: opParseGlob, Set: set, Recv: recv, Text: g.pick(constGlobs[:3]), Via: g.pick([]string{"const", "trusted"})}
+	default:
+		return Op{ID: id, Kind: opParseFS, Set: set, Recv: recv, Files: []string{g.pick([]string{"*.tmpl", "sub/*.tmpl", "a.tmpl", "c.tmpl"})}}
+	}
+}
+
+// ------------------------------------------------------------------ oracle --
+
+// runWorld executes ops on a fresh world of the case (same salt, same fault
+// plan) and returns the results by op id; ok=false if it deadlocked or hung.
+func runWorld(c *Case, ops []Op) (map[int]*Result, bool) {
+	simrt.SetMapSalt(c.MapSalt)
+	w := newWorld(c)
+	rs, st := runSeq(w, ops)
+	if st.Deadlock || st.Hang {
+		return nil, false
+	}
+	m := map[int]*Result{}
+	for _, r := range rs {
+		m[r.OpID] = r
+	}
+	return m, true
+}
+
+// executedForSure: the call certainly analysed (and possibly ran) an existing
+// template with a body: it returned nil, a run-time error, a writer error or
+// an analysis error.  Errors of class "other" (undefined name, incomplete
+// template) are not counted: the statement does not settle them.
+func executedForSure(r *Result) bool {
+	if !r.Done || r.Skipped != "" || r.Panic != "" || r.Aborted != "" {
+		return false
+	}
+	switch r.Kind {
+	case opExec, opExecTmpl, opExecHTML, opExecTmplHTML:
+	case opLookupExec:
+		if !r.Found {
+			return false
+		}
+	case opTemplatesEx:
+		for _, s := range r.Subs {
+			if s.Err == "" || s.ErrClass != "other" {
+				return true
+			}
+		}
+		return false
+	default:
+		return false
+	}
+	return r.Err == "" || r.ErrClass != "other"
+}
+
+func strictEqual(a, b *Result) (bool, string) {
+	if a.Skipped != b.Skipped {
+		return false, fmt.Sprintf("skipped %q vs %q", a.Skipped, b.Skipped)
+	}
+	if (a.Err == "") != (b.Err == "") {
+		return false, fmt.Sprintf("err=%q vs err=%q", clip(a.Err), clip(b.Err))
+	}
+	if !bytes.Equal(a.Out, b.Out) {
+		return false, fmt.Sprintf("wrote %q vs %q", clip(string(a.Out)), clip(string(b.Out)))
+	}
+	if a.Found != b.Found {
+		return false, fmt.Sprintf("found=%v vs %v", a.Found, b.Found)
+	}
+	if a.Kind == opTemplates || a.Kind == opLookup {
+		if strings.Join(a.Names, ",") != strings.Join(b.Names, ",") || a.Target != b.Target {
+			return false, fmt.Sprintf("%v %q vs %v %q", a.Names, a.Target, b.Names, b.Target)
+		}
+	}
+	if len(a.Subs) != len(b.Subs) {
+		return false, fmt.Sprintf("%d vs %d templates", len(a.Subs), len(b.Subs))
+	}
+	for i := range a.Subs {
+		if ok, d := strictEqual(a.Subs[i], b.Subs[i]); !ok {
+			return false, fmt.Sprintf("template %q: %s", a.Subs[i].Target, d)
+		}
+	}
+	return true, ""
+}
+
+func checkC07(cr *checkResult) {
+	o := cr.out
+	c := cr.tw.c
+	if o.DefSt.Deadlock || o.DefSt.Hang || o.Stats.Deadlock || o.Stats.Hang || len(c.Tasks) != 1 {
+		return
+	}
+	hist := append(append([]Op(nil), c.Defs...), c.Tasks[0]...)
+	res := map[int]*Result{}
+	for _, r := range o.all() {
+		res[r.OpID] = r
+	}
+	// --- reference model: freeze flags and clone lineage along the history ---
+	type lineage struct {
+		parent int
+		cutIdx int // index in hist of the Clone op that created the set
+	}
+	lin := map[int]lineage{}
+	handle := map[int]string{}
+	frozen := map[int]bool{}
+	executed := map[int]bool{}
+	postFreezeParse := map[int]bool{} // op ids of Parse* calls made on a frozen set
+	for i := range hist {
+		op := &hist[i]
+		r := res[op.ID]
+		if r == nil || !r.Done || r.Aborted != "" {
+			return // aborted run: C08's business
+		}
+		if r.Panic != "" {
+			return
+		}
+		if r.Created > 0 {
+			id := r.Created - 1
+			handle[id] = r.Handle
+			if r.How == "clone" {
+				lin[id] = lineage{parent: op.Set, cutIdx: i}
+				cr.note("clone_created")
+			} else {
+				lin[id] = lineage{parent: -1, cutIdx: -1}
+				cr.note("set_created_by_" + r.How)
+			}
+			if r.How != "clone" {
+				continue
+			}
+		}
+		switch {
+		case isParseKind(op.Kind):
+			if r.Skipped != "" {
+				continue
+			}
+			if frozen[op.Set] {
+				postFreezeParse[op.ID] = true
+				cr.note("parse_after_freeze_" + op.Kind)
+				if r.Err == "" {
+					cr.add("C07", "parse-after-freeze-ok", op.ID, "parse-after-freeze-ok:"+op.Kind, "%s on set %d returned nil although a template of that set had already been executed", op.Kind, op.Set)
+				}
+			}
+		case op.Kind == opClone:
+			if r.Skipped != "" {
+				continue
+			}
+			if executed[op.Set] {
+				cr.note("clone_after_execution")
+				if r.Err == "" {
+					cr.add("C07", "clone-after-exec-ok", op.ID, "clone-after-exec-ok", "Clone on set %d returned nil although a template of that set had already been executed", op.Set)
+				}
+			}
+		case isExecKind(op.Kind):
+			if executedForSure(r) {
+				frozen[op.Set] = true
+				executed[op.Set] = true
+			}
+		}
+	}
+
+	// --- F2: lock-step twin that never attempts the refused parses ---
+	if len(postFreezeParse) > 0 {
+		var ops []Op
+		for _, op := range hist {
+			if !postFreezeParse[op.ID] {
+				ops = append(ops, op)
+			}
+		}
+		if tw, ok := runWorld(c, ops); ok {
+			for _, op := range ops {
+				if a, b := res[op.ID], tw[op.ID]; a != nil && b != nil && (isExecKind(op.Kind) || op.Kind == opLookup || op.Kind == opTemplates) {
+					if same, d := strictEqual(a, b); !same {
+						cr.add("C07", "output-changed-after-freeze", op.ID, "output-changed-after-freeze", "%s %q on set %d differs from the same history without the Parse* calls made after the first execution: %s", op.Kind, a.Target, op.Set, d)
+						break
+					}
+				}
+			}
+		}
+	}
+
+	// --- I1a: strict isolation; I1b: a clone behaves like a flat set ---
+	if len(lin) > 1 {
+		for set := range lin {
+			// relevant(set): ops on set, and ops on each ancestor before the cut
+			keep := make([]bool, len(hist))
+			cur, limit := set, len(hist)
+			for cur >= 0 {
+				l, known := lin[cur]
+				if !known {
+					break
+				}
+				for i := 0; i < limit; i++ {
+					if hist[i].Set == cur {
+						keep[i] = true
+					}
+				}
+				if l.cutIdx >= 0 {
+					keep[l.cutIdx] = true
+				}
+				cur, limit = l.parent, l.cutIdx
+			}
+			var ops []Op
+			removed := 0
+			for i := range hist {
+				if keep[i] {
+					ops = append(ops, hist[i])
+				} else {
+					removed++
+				}
+			}
+			if removed > 0 {
+				cr.note("isolation_world_compared")
+				if tw, ok := runWorld(c, ops); ok {
+					for _, op := range ops {
+						if op.Set != set {
+							continue
+						}
+						a, b := res[op.ID], tw[op.ID]
+						if a == nil || b == nil {
+							continue
+						}
+						if same, d := strictEqual(a, b); !same {
+							cr.add("C07", "clone-leak", op.ID, "clone-leak", "%s %q on set %d changes when the operations on the other sets (%d of them) are removed from the history: %s", op.Kind, a.Target, set, removed, d)
+							break
+						}
+					}
+				}
+			}
+			// I1b only for clones
+			if lin[set].parent < 0 {
+				continue
+			}
+			flat, usable := flatten07(hist, keep, set, func(s int) (int, int) { return lin[s].parent, lin[s].cutIdx })
+			for cur := set; cur >= 0 && usable; cur = lin[cur].parent {
+				// "the set's root handle" must name the same template along
+				// the whole lineage (Clone does not carry over a root that was
+				// never parsed)
+				if handle[cur] != handle[set] {
+					usable = false
+				}
+			}
+			if !usable {
+				continue
+			}
+			cr.note("clone_vs_flat_compared")
+			if tw, ok := runWorld(c, flat); ok {
+				for _, op := range flat {
+					if !isExecKind(op.Kind) || op.Kind == opTemplatesEx {
+						continue
+					}
+					a, b := res[op.ID], tw[op.ID]
+					if a == nil || b == nil || a.Skipped != "" || b.Skipped != "" || a.Found != b.Found {
+						// (a template declared with New and never parsed is not
+						// carried over by Clone; Lookup may legitimately differ)
+						continue
+					}
+					if (a.Err == "") != (b.Err == "") || !bytes.Equal(a.Out, b.Out) {
+						cr.add("C07", "clone-not-own-context", op.ID, "clone-not-own-context", "%s %q on clone set %d gives (%q, err=%q) but a plain set built from the definitions the clone inherited plus its own, with the same executions, gives (%q, err=%q)", op.Kind, a.Target, set, clip(string(a.Out)), clip(a.Err), clip(string(b.Out)), clip(b.Err))
+						break
+					}
+				}
+			}
+		}
+	}
+	simrt.SetMapSalt(c.MapSalt)
+}
+
+// flatten07 rewrites relevant(set) into a history over ONE plain set: the
+// definition calls the clone inherited (ancestors' definitions before each
+// cut), then everything done on the clone itself; Clone calls are dropped.
+// Not usable when the lineage uses things Clone is not required to carry over
+// (Option, CSPCompatible, templates declared with New and never parsed) or
+// when an ancestor was created by a function-form Parse* call.
+func flatten07(hist []Op, keep []bool, set int, parent func(int) (int, int)) ([]Op, bool) {
+	anc := map[int]bool{}
+	for cur := set; cur >= 0; {
+		anc[cur] = true
+		p, _ := parent(cur)
+		cur = p
+	}
+	var out []Op
+	first := true
+	for i := range hist {
+		if !keep[i] {
+			continue
+		}
+		op := hist[i]
+		switch op.Kind {
+		case opClone:
+			if op.Set == set {
+				// a further Clone attempt on the clone itself: keep it as is but
+				// its target set must not collide
+				op.Set = 100
+				op.New = 100 + op.New
+				out = append(out, op)
+			}
+			continue
+		case opOption, opCSP:
+			return nil, false
+		}
+		if op.Set != set {
+			// ancestor operation before the cut: only definitions are inherited
+			if isExecKind(op.Kind) {
+				// an execution on an ancestor before the cut makes Clone fail;
+				// then the clone does not exist and we are not here
+				return nil, false
+			}
+			if op.Kind == opLookup || op.Kind == opTemplates || op.Kind == opName || op.Kind == opDefined {
+				continue
+			}
+		}
+		if first {
+			if op.Kind != opNew {
+				return nil, false
+			}
+			first = false
+		} else if op.Kind == opNew && op.Set != set {
+			// New on an ancestor without a later Parse is not carried over by
+			// Clone; with a later Parse it is.  Keep it: a declared-but-empty
+			// template and a missing one both make callers fail.
+		}
+		op.Set = 100
+		out = append(out, op)
+	}
+	return out, !first
+}
